@@ -10,7 +10,6 @@ Usage:
 
 import argparse
 import os
-import re
 import shutil
 import sys
 
@@ -84,7 +83,7 @@ from ._version import (
     VERSION, GIT_SHA, REPO_URL, check_for_updates,
     get_latest_release_info, perform_update
 )
-from .config_loader import load_config
+from .config_loader import load_config, load_settings
 
 BANNER = ''
 from .merchant_utils import get_all_rules, diagnose_rules, explain_description, load_merchant_rules, get_tag_only_rules, apply_tag_rules, get_transforms
@@ -162,8 +161,13 @@ def _migrate_csv_to_rules(csv_file: str, config_dir: str, backup: bool = True) -
             # newline='' - keep the user's line endings: the file is written back below
             with open(settings_path, 'r', encoding='utf-8', newline='') as f:
                 settings_content = f.read()
-            # Look for an actual top-level key, not a mention in a comment
-            if not re.search(r'^merchants_file\s*:', settings_content, re.MULTILINE):
+            # Ask the settings loader, not the text: a comment mentioning the key, or a
+            # key without a value ("merchants_file:"), does not configure a rules file
+            try:
+                current_settings = load_settings(config_dir) or {}
+            except Exception:
+                current_settings = {}
+            if not (isinstance(current_settings, dict) and current_settings.get('merchants_file')):
                 _write_file_atomic(
                     settings_path,
                     settings_content
